@@ -633,3 +633,32 @@ Proof.
   intros H. apply b64_decode_sound in H. destruct H as (k & E & Hb). exists k. split; [|exact Hb].
   unfold no_pad_engine. now rewrite b64_engine_unpadded.
 Qed.
+
+(* ---- encoding in blocks: cutting the input at a multiple of 3 bytes is harmless (each block but the
+   last encoded without padding), and cutting elsewhere is not *)
+Lemma enc_full_app al pad l1 l2 :
+  (length l1 mod 3 = 0)%nat -> enc_full al pad (l1 ++ l2) = enc_full al false l1 ++ enc_full al pad l2.
+Proof.
+  induction l1 as [| x | x y | x y z t IH] using list_ind3; intros H.
+  - reflexivity.
+  - cbn in H. discriminate.
+  - cbn in H. discriminate.
+  - cbn [app enc_full]. rewrite IH; [reflexivity|].
+    cbn [length] in H. remember (length t) as n. clear - H.
+    replace (S (S (S n))) with (n + 1 * 3)%nat in H by lia. now rewrite Nat.mod_add in H by discriminate.
+Qed.
+
+Lemma encode_blockwise e l1 l2 :
+  (length l1 mod 3 = 0)%nat ->
+  b64_encode_engine e (l1 ++ l2) =
+  b64_encode_engine (no_pad_engine (fst (engine_cfg e))) l1 ++ b64_encode_engine e l2.
+Proof.
+  intros H. rewrite !encode_engine_full. rewrite enc_full_app by assumption.
+  destruct e; reflexivity.
+Qed.
+
+Lemma encode_blockwise_needs_3 :
+  exists e l1 l2, b64_encode_engine e (l1 ++ l2) <> b64_encode_engine e l1 ++ b64_encode_engine e l2 /\
+                  b64_decode_bytes (alphabet_of (fst (engine_cfg e))) Indifferent false
+                                   (b64_encode_engine e l1 ++ b64_encode_engine e l2) <> DOk (l1 ++ l2).
+Proof. exists STANDARD, [97], [98]. vm_compute. split; discriminate. Qed.
